@@ -586,28 +586,46 @@ def sort_complex(a):
 
 
 def _array_comp_helper(a, b):
-    au = getattr(a, "units", NULL_UNIT)
-    bu = getattr(b, "units", NULL_UNIT)
-    if bu != au and au != NULL_UNIT and bu != NULL_UNIT:
-        b = b.in_units(au)
-    elif bu == NULL_UNIT:
+    au = getattr(a, "units", None)
+    bu = getattr(b, "units", None)
+    if au is not None and bu is not None:
+        # two quantities: a dimensionless quantity is still a quantity
+        if bu != au:
+            b = b.in_units(au)
+    elif bu is None:
         b = np.array(b) * au
-    elif au == NULL_UNIT:
+    elif au is None:
         a = np.array(a) * bu
 
     return a, b
 
 
+def _comp_tolerances(a, rtol, atol):
+    # tolerances may carry units: rtol must be dimensionless (but can have a
+    # scale, e.g. percent), atol is a difference in units consistent with a
+    if hasattr(rtol, "units"):
+        rtol = rtol.in_units("dimensionless").value
+    if hasattr(atol, "units"):
+        atol = atol.value * atol.units.get_conversion_factor(a.units)[0]
+    return rtol, atol
+
+
 @implements(np.isclose)
-def isclose(a, b, *args, **kwargs):
+def isclose(a, b, rtol=1e-05, atol=1e-08, equal_nan=False):
     a, b = _array_comp_helper(a, b)
-    return np.isclose._implementation(np.asarray(a), np.asarray(b), *args, **kwargs)
+    rtol, atol = _comp_tolerances(a, rtol, atol)
+    return np.isclose._implementation(
+        np.asarray(a), np.asarray(b), rtol=rtol, atol=atol, equal_nan=equal_nan
+    )
 
 
 @implements(np.allclose)
-def allclose(a, b, *args, **kwargs):
+def allclose(a, b, rtol=1e-05, atol=1e-08, equal_nan=False):
     a, b = _array_comp_helper(a, b)
-    return np.allclose._implementation(np.asarray(a), np.asarray(b), *args, **kwargs)
+    rtol, atol = _comp_tolerances(a, rtol, atol)
+    return np.allclose._implementation(
+        np.asarray(a), np.asarray(b), rtol=rtol, atol=atol, equal_nan=equal_nan
+    )
 
 
 @implements(np.array_equal)
